@@ -60,6 +60,13 @@ impl<const N: usize> Context<N> {
             set.insert(nonce, ());
         }
     }
+
+    /// Remember the salt and report whether it was already known, in one step under the lock
+    /// (two connections presenting the same request at the same time must not both pass).
+    pub fn test_and_set_nonce(&self, nonce: [u8; N]) -> bool {
+        let mut set = self.nonce_cache.lock().unwrap_or_else(|e| e.into_inner());
+        set.insert(nonce, ()).is_some()
+    }
 }
 
 #[derive(Default)]
@@ -221,7 +228,9 @@ impl<const N: usize> AEADCipherCodec<N> {
         };
         let length = header.get_u16() as usize;
         if _src.remaining() >= length + tag_size {
-            context.set_nonce(salt);
+            if context.test_and_set_nonce(salt) {
+                bail!("detected repeated nonce salt {:?}", salt);
+            }
             let position = _src.position();
             let src = _src.into_inner();
             src.advance(position as usize);
